@@ -217,6 +217,7 @@ func cmdCheck(args []string) int {
 		Obligation string `json:"obligation"`
 		Reason     string `json:"reason"`
 		Detail     string `json:"detail"`
+		Kind       string `json:"kind,omitempty"`
 		Pos        string `json:"pos,omitempty"`
 		Solver     string `json:"solver_output,omitempty"`
 		Replay     *ReplayResult `json:"replay,omitempty"`
@@ -263,13 +264,13 @@ func cmdCheck(args []string) int {
 		case o.Cover:
 			covers++
 			if o.Result == "unsat" {
-				viols = append(viols, viol{o.Name, "vacuous", "cover check failed: " + o.Detail + " (premises are contradictory)", o.Pos, "", nil, ""})
+				viols = append(viols, viol{Obligation: o.Name, Reason: "vacuous", Detail: "cover check failed: " + o.Detail + " (premises are contradictory)", Pos: o.Pos})
 			}
 			continue
 		case o.MustFail:
 			canaries++
 			if o.Result == "unsat" {
-				viols = append(viols, viol{o.Name, "vacuous", "canary was discharged: the contract proves a negated postcondition, so the proof is vacuous", o.Pos, "", nil, ""})
+				viols = append(viols, viol{Obligation: o.Name, Reason: "vacuous", Detail: "canary was discharged: the contract proves a negated postcondition, so the proof is vacuous", Pos: o.Pos})
 			}
 			continue
 		}
@@ -306,6 +307,13 @@ func cmdCheck(args []string) int {
 		}
 	}
 	reportedFn := map[string]bool{}
+	fnGenerated := map[string]bool{}
+	for _, r := range results {
+		if r.Err == nil && len(r.Obls) > 0 {
+			fnGenerated[r.Key] = true
+		}
+	}
+	safetyRenamed := 0
 	for _, g := range gnames {
 		if only != "" {
 			break
@@ -317,6 +325,11 @@ func cmdCheck(args []string) int {
 			}
 			// obligation names may contain '/', the function key is the prefix before the kind
 			for fk := range failedFn {
+				if strings.HasPrefix(g, fk+"/") {
+					fnKey = fk
+				}
+			}
+			for fk := range fnGenerated {
 				if strings.HasPrefix(g, fk+"/") {
 					fnKey = fk
 				}
@@ -337,6 +350,17 @@ func cmdCheck(args []string) int {
 				}
 			}
 			if _, isKnown := knownObl[g]; isKnown {
+				continue
+			}
+			// Implicit safety obligations are derived from the code's own expressions
+			// (their name carries the source text of the indexed/dereferenced expression).
+			// When the code is edited -- a local renamed, an expression rewritten -- the old
+			// name disappears and the new expression gets its own obligation, which is
+			// generated and must discharge like any other. Only contract-level obligations
+			// (post, inv, dec, pre@, frame, lemma, guarantee), whose names come from the
+			// contract text, are pinned by name.
+			if isSafetyName(g[len(fnKey):]) && fnGenerated[fnKey] {
+				safetyRenamed++
 				continue
 			}
 			viols = append(viols, viol{Obligation: g, Reason: reason, Detail: detail})
@@ -413,17 +437,25 @@ func cmdCheck(args []string) int {
 	if len(viols) > 0 {
 		os.MkdirAll(replayDir, 0o755)
 	}
+	replayAttempts := 0
+	replayedFn := map[string]bool{}
 	for i := range viols {
 		v := &viols[i]
 		o := generated[v.Obligation]
 		suffix := " no-failing-input-found"
 		if o != nil {
 			v.Query = dumpQuery(filepath.Join(replayDir, "queries"), o)
-			if o.Result == "sat" {
+			v.Kind = o.Kind
+			if (o.Result == "sat" || o.Result == "unknown" || o.Result == "timeout") && (o.Kind == "post" || o.Safety) &&
+				replayAttempts < 4 && !replayedFn[o.Func] {
 				rr := TryReplay(P, db, id, o)
 				v.Replay = rr
+				if rr != nil && rr.Attempted {
+					replayAttempts++
+				}
 				if rr != nil && rr.Reproduced {
 					suffix = ""
+					replayedFn[o.Func] = true
 				}
 			}
 		}
@@ -514,6 +546,7 @@ func cmdCheck(args []string) int {
 			"bounded_standins":         cfg.Bounded,
 			"generator_errors":         toolErrs,
 			"golden_obligations":       len(golden),
+			"golden_safety_obligations_superseded": safetyRenamed,
 			"samples":                  samples,
 		},
 		"assumptions": assumptions,
@@ -531,6 +564,18 @@ func cmdCheck(args []string) int {
 		return 2
 	}
 	return exit
+}
+
+// isSafetyName reports whether an obligation name (the part after the function key)
+// is an implicit safety obligation derived from a code expression.
+func isSafetyName(rest string) bool {
+	rest = strings.TrimPrefix(rest, "/")
+	for _, p := range []string{"nil[", "bounds[", "slice[", "ovf[", "makeslice[", "nilmap[", "div", "shift", "lock-read[", "lock-write[", "conv[", "assert", "panic["} {
+		if strings.HasPrefix(rest, p) {
+			return true
+		}
+	}
+	return false
 }
 
 func round3(f float64) float64 { return float64(int(f*1000)) / 1000 }
